@@ -72,7 +72,7 @@ def cmd_add(a):
     if not ok:
         print('NOT CONFIRMED - not filed')
         return 1
-    dst = os.path.join(SEEDED, '%s-%s' % (a.prop, a.k))
+    dst = os.path.join(SEEDED, '%s-%s' % (a.prop, a.dest or a.k))
     os.makedirs(dst, exist_ok=True)
     shutil.copy(patch, os.path.join(dst, 'patch.diff'))
     shutil.copy(demo, os.path.join(dst, 'demo.py'))
@@ -141,6 +141,7 @@ def main():
     p.add_argument('k')
     p.add_argument('worktree')
     p.add_argument('needs')
+    p.add_argument('--dest', help='suffix of the seeded/ directory (default: k)')
     p = sub.add_parser('run')
     p.add_argument('seeds', nargs='*')
     p.add_argument('--props')
